@@ -696,6 +696,13 @@ func (c *evalCtx) evalProjection(ts container.Triplestore, nodeMask, edgeMask ui
 	pc.guard("panic-projection", "Projection", func() {
 		pc.checkTriplestore("projection", ts.Projection(bitmapOf(delNodes), bitmapOf(delEdges)), want, probes, derived)
 	})
+	// the same deletion sets plus an id the store does not hold (a set computed on a larger graph): the same projection
+	fc := c.with("scope", "projection-with-foreign-ids", "deleted_nodes", delNodes, "deleted_edges", delEdges, "node_mask", nodeMask, "edge_mask", edgeMask)
+	fc.guard("panic-projection", "Projection with ids that are not in the store", func() {
+		foreignNodes := append(append([]uint64{}, delNodes...), absentID, absentID+1)
+		foreignEdges := append(append([]uint64{}, delEdges...), absentID)
+		fc.checkTriplestore("projection", ts.Projection(bitmapOf(foreignNodes), bitmapOf(foreignEdges)), want, probes, false)
+	})
 	if !pl.chains {
 		return
 	}
